@@ -169,6 +169,10 @@ func c07Server(log *vh.Log, nosid bool) *mcp.Server {
 	mcp.AddTool(server, &mcp.Tool{Name: "echo"}, func(ctx context.Context, req *mcp.CallToolRequest, in c07Echo) (*mcp.CallToolResult, any, error) {
 		return &mcp.CallToolResult{Content: []mcp.Content{&mcp.TextContent{Text: "echo:" + in.Text}}}, nil, nil
 	})
+	// an application-defined method next to the standard ones
+	mcp.AddReceivingCustomMethod(server, "acme/search", func(ctx context.Context, ss *mcp.ServerSession, p *c07SearchParams) (*c07SearchResult, error) {
+		return &c07SearchResult{Hits: []string{"hit:" + p.Query}}, nil
+	})
 	server.AddReceivingMiddleware(func(next mcp.MethodHandler) mcp.MethodHandler {
 		return func(ctx context.Context, method string, req mcp.Request) (mcp.Result, error) {
 			log.Add("server-received", "method", method)
@@ -178,12 +182,24 @@ func c07Server(log *vh.Log, nosid bool) *mcp.Server {
 	return server
 }
 
+type c07SearchParams struct {
+	mcp.ParamsBase
+	Query string `json:"query"`
+}
+
+type c07SearchResult struct {
+	mcp.ResultBase
+	Hits []string `json:"hits"`
+}
+
 func c07Client(handlers bool) *mcp.Client {
 	var opts *mcp.ClientOptions
 	if handlers {
 		opts = &mcp.ClientOptions{ToolListChangedHandler: func(context.Context, *mcp.ToolListChangedRequest) {}, ResourceListChangedHandler: func(context.Context, *mcp.ResourceListChangedRequest) {}}
 	}
-	return mcp.NewClient(&mcp.Implementation{Name: "c", Version: "1"}, opts)
+	cl := mcp.NewClient(&mcp.Implementation{Name: "c", Version: "1"}, opts)
+	mcp.AddSendingCustomMethod[*c07SearchParams, *c07SearchResult](cl, "acme/search")
+	return cl
 }
 
 // c07Use checks that the session can list and call tools right away.
@@ -204,6 +220,12 @@ func c07Use(c *vh.Case, ctx context.Context, cs *mcp.ClientSession, v string) {
 	}
 	if res.IsError || len(res.Content) != 1 || textOf(res) != "echo:hi" {
 		c.Violate("session-unusable/call", "Connect succeeded with version %q but CallTool returned %s", v, vh.JSON(res))
+		return
+	}
+	// the application's own method is served on the negotiated session like the standard ones
+	sr, err := mcp.CallCustomMethod[*c07SearchParams, *c07SearchResult](ctx, cs, "acme/search", &c07SearchParams{Query: "q"})
+	if err != nil || sr == nil || len(sr.Hits) != 1 || sr.Hits[0] != "hit:q" {
+		c.Violate("session-unusable/custom-method", "Connect succeeded with version %q but the registered custom method fails: %v %s", v, err, vh.JSON(sr))
 	}
 }
 
@@ -523,6 +545,9 @@ func runC07Script(c *vh.Case, spec c07Spec) {
 		case "tools/call":
 			st.others = append(st.others, req.Method+"@"+mv)
 			sc.Inject(vhm.Resp(req.ID, `{"content":[{"type":"text","text":"echo:hi"}]}`))
+		case "acme/search":
+			st.others = append(st.others, req.Method+"@"+mv)
+			sc.Inject(vhm.Resp(req.ID, `{"hits":["hit:q"]}`))
 		case "subscriptions/listen":
 			st.others = append(st.others, req.Method+"@"+mv)
 			// a long-lived stream: no response while it is open
@@ -720,6 +745,8 @@ func (s *c07HTTPServer) RoundTrip(req *http.Request) (*http.Response, error) {
 		return s.resp(req, 200, "application/json", fmt.Sprintf(`{"jsonrpc":"2.0","id":%s,"result":{"tools":[{"name":"echo","inputSchema":{"type":"object"}}]}}`, m.ID), nil), nil
 	case "tools/call":
 		return s.resp(req, 200, "application/json", fmt.Sprintf(`{"jsonrpc":"2.0","id":%s,"result":{"content":[{"type":"text","text":"echo:hi"}]}}`, m.ID), nil), nil
+	case "acme/search":
+		return s.resp(req, 200, "application/json", fmt.Sprintf(`{"jsonrpc":"2.0","id":%s,"result":{"hits":["hit:q"]}}`, m.ID), nil), nil
 	}
 	if len(m.ID) == 0 {
 		return s.resp(req, 202, "", "", nil), nil
